@@ -40,4 +40,38 @@ def reviewedSignatures : List (String × String) := [
   ("PrivateVarsLeadingUnderscore", "## No use of underscore for internal and private variable names | Don't use the underscore prefix for public variable names"),
   ("PrivateFuncLeadingUnderscore", "## No use of underscore for internal and private function names | Don't use the underscore prefix for public and external function names")]
 
+/-- reviewed table: the configuration name of every pattern (documented in docs/identified-*.md) and the variant it
+selects; every name is the snake_case spelling of its variant (`ImmutableVarialbes` is the code's own spelling) -/
+def reviewedNames : List (String × String) := [
+("address_balance", "AddressBalance"),
+  ("address_zero", "AddressZero"),
+  ("assign_update_array_value", "AssignUpdateArrayValue"),
+  ("cache_array_length", "CacheArrayLength"),
+  ("constant_variables", "ConstantVariables"),
+  ("bool_equals_bool", "BoolEqualsBool"),
+  ("immutable_variables", "ImmutableVarialbes"),
+  ("increment_decrement", "IncrementDecrement"),
+  ("memory_to_calldata", "MemoryToCalldata"),
+  ("multiple_require", "MultipleRequire"),
+  ("pack_storage_variables", "PackStorageVariables"),
+  ("pack_struct_variables", "PackStructVariables"),
+  ("payable_function", "PayableFunction"),
+  ("private_constant", "PrivateConstant"),
+  ("safe_math_pre_080", "SafeMathPre080"),
+  ("safe_math_post_080", "SafeMathPost080"),
+  ("shift_math", "ShiftMath"),
+  ("solidity_keccak256", "SolidityKeccak256"),
+  ("solidity_math", "SolidityMath"),
+  ("sstore", "Sstore"),
+  ("string_errors", "StringErrors"),
+  ("optimal_comparison", "OptimalComparison"),
+  ("short_revert_string", "ShortRevertString"),
+  ("floating_pragma", "FloatingPragma"),
+  ("unsafe_erc20_operation", "UnsafeERC20Operation"),
+  ("unprotected_selfdestruct", "UnprotectedSelfdestruct"),
+  ("divide_before_multiply", "DivideBeforeMultiply"),
+  ("constructor_order", "ConstructorOrder"),
+  ("private_vars_leading_underscore", "PrivateVarsLeadingUnderscore"),
+  ("private_func_leading_underscore", "PrivateFuncLeadingUnderscore")]
+
 end Solstat
